@@ -36,48 +36,80 @@ fn oracle(d: &[(usize, u8); ND], q: &str, lvl: u8) -> bool {
     }
     match best { Some((_, l)) => lvl <= l, None => false }
 }
-fn any_dirs() -> [(usize, u8); ND] {
-    let d: [(usize, u8); ND] = [(nd(), nd()), (nd(), nd())];
-    let mut i = 0; while i < ND { kani::assume(d[i].0 <= 5 && d[i].1 <= 5); i += 1; }
-    d
+/// concrete TARGET shapes (prefix chain + default; same key twice; disjoint + empty-string target), symbolic LEVELS:
+/// symbolic target choice made CBMC exceed 25 GB, concrete strings constant-fold.
+fn shape(k: u8, l: [u8; 3]) -> [(usize, u8); 3] {
+    match k {
+        0 => [(0, l[0]), (1, l[1]), (5, l[2])],     // a, ab, default
+        1 => [(1, l[0]), (5, l[1]), (1, l[2])],     // ab, default, ab again (replaces)
+        2 => [(2, l[0]), (3, l[1]), (4, l[2])],     // abc, b, ""
+        _ => [(5, l[0]), (0, l[1]), (5, l[2])],     // default, a, default again (replaces)
+    }
 }
-
-// BOUND: 2 directives over targets {a, ab, abc, b, "", default} x 6 levels; queries {a, ab, abc, abcd, b, c} x 5 levels
-#[kani::proof]
-#[kani::unwind(8)]
-#[kani::stub(core::fmt::Formatter::pad, pad_stub)]
-fn c11_most_specific_directive_wins_bounded() {
-    let d = any_dirs();
-    let t = build(&d);
-    let qi: usize = nd(); kani::assume(qi < 6); let lvl: u8 = nd(); kani::assume(lvl >= 1 && lvl <= 5);
-    let level = *vmeta_of(lvl).level();
-    assert!(t.would_enable(QRY[qi], &level) == oracle(&d, QRY[qi], lvl), "C11.would_enable.most_specific_matching_directive_decides_none_means_disabled");
-}
-
-// BOUND: 2 directives as above
-#[kani::proof]
-#[kani::unwind(8)]
-#[kani::stub(core::fmt::Formatter::pad, pad_stub)]
-fn c11_directive_set_sorted_unique_and_max_level_bounded() {
-    let d = any_dirs();
-    let t = build(&d);
-    // sorted most-specific-first by the real Ord, no two entries with the same key
-    let v: Vec<&StaticDirective> = t.0.directives().collect();
+fn build3(d: &[(usize, u8); 3]) -> Targets {
+    let mut t = Targets::new();
     let mut i = 0;
-    while i + 1 < v.len() {
-        assert!(v[i].cmp(v[i + 1]) == core::cmp::Ordering::Less, "C11.DirectiveSet.strictly_sorted_so_keys_unique");
-        let (a, b) = (v[i].target.as_ref().map(|s| s.len()), v[i + 1].target.as_ref().map(|s| s.len()));
-        assert!(a >= b, "C11.DirectiveSet.longer_targets_first");
+    while i < 3 {
+        let lf = vfilter_of(d[i].1).unwrap();
+        t = if d[i].0 == 5 { t.with_default(lf) } else { t.with_target(CAT[d[i].0], lf) };
         i += 1;
     }
-    // number of entries = number of distinct targets added
-    let mut distinct = 0; let mut i = 0;
-    while i < ND { let mut seen = false; let mut j = 0; while j < i { if d[j].0 == d[i].0 { seen = true; } j += 1; } if !seen { distinct += 1; } i += 1; }
-    assert!(v.len() == distinct, "C11.DirectiveSet.equal_key_is_replaced_not_duplicated");
-    // the published hint bounds every directive present (C08: Targets' max_level_hint is sound)
-    let hint = vrank(Some(t.0.max_level));
-    let mut i = 0; while i < v.len() { assert!(vrank(Some(v[i].level)) <= hint, "C11.DirectiveSet.max_level_bounds_every_directive"); i += 1; }
+    t
 }
+fn oracle3(d: &[(usize, u8); 3], q: &str, lvl: u8) -> bool {
+    let mut best: Option<(isize, u8)> = None;
+    let mut i = 0;
+    while i < 3 {
+        let mut replaced = false; let mut j = i + 1;
+        while j < 3 { if d[j].0 == d[i].0 { replaced = true; } j += 1; }
+        if !replaced {
+            if let Some(s) = prefix_len(d[i].0, q) {
+                match best { Some((bs, _)) if bs >= s => {}, _ => best = Some((s, d[i].1)) }
+            }
+        }
+        i += 1;
+    }
+    match best { Some((_, l)) => lvl <= l, None => false }
+}
+fn any_levels() -> [u8; 3] { let l: [u8; 3] = nd(); kani::assume(l[0] <= 5 && l[1] <= 5 && l[2] <= 5); l }
+
+macro_rules! wins_body { ($k:expr) => {{
+    let d = shape($k, any_levels());
+    let t = build3(&d);
+    let lvl: u8 = nd(); kani::assume(lvl >= 1 && lvl <= 5);
+    let level = *vmeta_of(lvl).level();
+    let qi: usize = nd(); kani::assume(qi < 6);
+    let q = match qi { 0 => QRY[0], 1 => QRY[1], 2 => QRY[2], 3 => QRY[3], 4 => QRY[4], _ => QRY[5] };
+    assert!(t.would_enable(q, &level) == oracle3(&d, q, lvl), "C11.would_enable.most_specific_matching_directive_decides_none_means_disabled");
+    // the published hint bounds every directive present (also after a replace)
+    let hint = vrank(Some(t.0.max_level));
+    for dir in t.0.directives() { assert!(vrank(Some(dir.level)) <= hint, "C11.DirectiveSet.max_level_bounds_every_directive_present"); }
+    let mut distinct = 0; let mut i = 0;
+    while i < 3 { let mut seen = false; let mut j = 0; while j < i { if d[j].0 == d[i].0 { seen = true; } j += 1; } if !seen { distinct += 1; } i += 1; }
+    assert!(t.0.directives().count() == distinct, "C11.DirectiveSet.equal_key_is_replaced_not_duplicated");
+}}; }
+// BOUND: directive shape [a, ab, default] x all levels; queries {a, ab, abc, abcd, b, c} x 5 levels
+#[kani::proof]
+#[kani::unwind(8)]
+#[kani::stub(core::fmt::Formatter::pad, pad_stub)]
+fn c11_prefix_chain_with_default_bounded() { wins_body!(0) }
+// BOUND: directive shape [ab, default, ab again] x all levels; same queries
+#[kani::proof]
+#[kani::unwind(8)]
+#[kani::stub(core::fmt::Formatter::pad, pad_stub)]
+fn c11_same_target_twice_replaces_bounded() { wins_body!(1) }
+// TIER: thorough
+// BOUND: directive shape [abc, b, ""] x all levels; same queries
+#[kani::proof]
+#[kani::unwind(8)]
+#[kani::stub(core::fmt::Formatter::pad, pad_stub)]
+fn c11_disjoint_and_empty_target_bounded() { wins_body!(2) }
+// TIER: thorough
+// BOUND: directive shape [default, a, default again] x all levels; same queries
+#[kani::proof]
+#[kani::unwind(8)]
+#[kani::stub(core::fmt::Formatter::pad, pad_stub)]
+fn c11_default_twice_replaces_bounded() { wins_body!(3) }
 
 // BOUND: pairs/triples of directives from the catalogue (targets x {no field, one field})
 #[kani::proof]
